@@ -555,3 +555,10 @@ func verifObjGet(x []byte, p string) []byte {
 	return verifJSONCanon(v)
 }
 func verifObjWellFormed(x []byte) bool { return true }
+
+func verifMapEmits(d verifDoc) bool   { return false }
+func verifMapKey(d verifDoc) []byte   { return nil }
+func verifMapValue(d verifDoc) []byte { return nil }
+func verifCollLess(a, b []byte) bool  { return false }
+func verifAnyJSON(v any) []byte       { b, _ := json.Marshal(v); return b }
+func verifSymOnly()                   {}
